@@ -753,6 +753,24 @@ def work_obs(job):
     return rec
 
 
+def work_pole_below_threshold(seed):
+    """Boundary of C09, measured and reported as a note (never a verdict): a pole mass below
+    the threshold of one of its channels, s above every threshold."""
+    rng = random.Random(seed)
+    out = []
+    for Xn, L in (("PhaseSpaceFactor", 0), ("PhaseSpaceFactor", 1), ("PhaseSpaceFactorAbs", 0), ("PhaseSpaceFactorAbs", 1)):
+        pt = Point(rng, 2, 1)
+        pt.m_a[1] = pt.m_b[1] = sp.Rational(9, 10)
+        pt.m = [sp.Rational(3, 2)]
+        pt.s = sp.Integer(5)
+        try:
+            u, sy = unitarity_residuals(num_matrix(formulate("RelK", 2, 1, False, L, 1, Xn), pt))
+            out.append(f"{Xn} L={L}: unitarity residual {float(u):.3g}, symmetry {float(sy):.3g}")
+        except (KeyError, TypeError, ValueError, ZeroDivisionError) as e:
+            out.append(f"{Xn} L={L}: {type(e).__name__}")
+    return out
+
+
 def strip(rec):
     """drop driver-side fields (leading underscore) before a record is sent to TLC."""
     return {k: v for k, v in rec.items() if not k.startswith("_")}
